@@ -238,11 +238,12 @@ func (d *driver) run(offer func(net.Conn) bool) {
 		if d.h.CutDone {
 			break
 		}
-		d.park(st.Pre)
 		if st.Need != 0 && d.lastCode != st.Need {
+			// (replies are only read while a step waits, so the pause cannot change this)
 			h.StepSkipped[i] = true
 			continue
 		}
+		d.park(st.Pre)
 		if st.Kind != kGreetWait && st.Kind != kStall {
 			h.StepOff[i] = len(h.Sent) + len(d.pending)
 			d.send(st)
